@@ -113,7 +113,7 @@ type certStatus struct {
 	InvalidEarly int
 	InvalidLate  int
 	OtherView    int
-	AtPrimary    bool // the node is the primary of the view it accepts in
+	AtPrimary    bool // the node MADE the proposal of the view it accepts in (this incarnation broadcast it)
 	AMEV         bool // the anti-MEV extension is on at this height
 }
 
@@ -126,17 +126,22 @@ func (c certStatus) onlyEarlyInvalid() bool {
 	return !c.ok() && c.InvalidLate == 0 && c.InvalidEarly > 0 && c.Valid+c.InvalidEarly >= c.M
 }
 
-// knownD1: D1 is about a backup without the anti-MEV extension that stores a commit before it
-// receives the proposal.  The primary re-validates what it holds right after storing its own
-// proposal, and with the extension every stored commit is re-validated once the pre-block is
-// processed (D12 fixed), so the same shortfall there is not the known finding.
+// knownD1: D1 is about a node without the anti-MEV extension that stores a commit before it
+// RECEIVES the proposal (onPrepareRequest runs updateExistingPayloads before the request is
+// stored).  A primary that makes the proposal re-validates what it holds right after storing its
+// own request (sendPrepareRequest), and with the extension every stored commit is re-validated
+// once the pre-block is processed (D12 fixed), so the same shortfall there is not the known
+// finding.  A node on the primary's slot that did not make the proposal in this incarnation - a
+// restarted primary that gets its own earlier proposal back, a split-brain sibling - takes it in
+// through onPrepareRequest like any backup: that is the known finding.
 func (c certStatus) knownD1() bool { return c.onlyEarlyInvalid() && !c.AtPrimary && !c.AMEV }
 
 // commitCert re-verifies the current-view commits the node holds against blk.
 func (n *Node) commitCert(blk *Block) certStatus {
 	d := n.d
 	vals := n.valsPub(d.BlockIndex)
-	cs := certStatus{M: mOf(len(vals)), AtPrimary: d.IsPrimary(), AMEV: n.s.sc.amevAt(d.BlockIndex)}
+	cs := certStatus{M: mOf(len(vals)), AMEV: n.s.sc.amevAt(d.BlockIndex),
+		AtPrimary: n.madeReq && n.madeReqInc == n.inc && n.madeReqH == d.BlockIndex && n.madeReqV == d.ViewNumber}
 	for i, cp := range d.CommitPayloads {
 		if cp == nil || i >= len(vals) {
 			continue
